@@ -14,7 +14,7 @@ from typing import Any, Dict, List, Optional, Set, Tuple
 
 import z3
 
-from harness.common import Counter, closure, perms, selection_spec, term_fn
+from harness.common import watchdog, Counter, closure, perms, selection_spec, term_fn
 from sx.engine import Ctx, SInt, SXControl, SymVal, lift, vapp, veq
 
 
@@ -46,6 +46,7 @@ def _edges(c: Ctx, names: List[str]) -> Dict[str, List[str]]:
 
 
 # ------------------------------------------------------------------------------------------------ C07
+@watchdog(lambda cfg: "C07")
 def run_c07(cfg: GCfg, c: Ctx) -> Any:
     from tawazi import Resource, cfg as twz_cfg, dag, xn
 
@@ -61,6 +62,7 @@ def run_c07(cfg: GCfg, c: Ctx) -> Any:
             d = names[k - 1]
             c.assume(not desc[d])
             dbg.add(d)
+    c.heavy()
     prio = {n: c.int("p_" + n) for n in names}
     cnt = Counter()
     xns = {n: xn(term_fn(n, cnt), priority=prio[n], debug=(n in dbg), resource=Resource.main_thread) for n in names}
@@ -80,7 +82,7 @@ def run_c07(cfg: GCfg, c: Ctx) -> Any:
         for n in nodes:
             got = table[n] if n in table else None
             c.check(got is not None and _zi(got) == want[n], "compound priority of %s %s is not own priority + sum over distinct descendants" % (n, what),
-                    prop="C07", data={"node": n, "deps": deps, "got": repr(got), "where": what})
+                    prop="C07", data={"node": n, "deps": deps, "got": got, "where": what})
 
     want = cp_def(prio)
     check_table(d.graph_ids.compound_priority, want, names, "after construction")
@@ -140,6 +142,7 @@ def member_options(N: int, role: str) -> List[Any]:
     return MEMBER_OPTS_CACHE[key]
 
 
+@watchdog(lambda cfg: "C12")
 def run_c12(cfg: GCfg, c: Ctx) -> Any:
     from tawazi import Resource, dag, xn
 
@@ -271,7 +274,7 @@ def run_c12(cfg: GCfg, c: Ctx) -> Any:
     c.check(cnt.entered() == want_run and all(v == 1 for v in cnt.n.values()),
             "executed nodes %s differ from the documented closure %s" % (dict(cnt.n), sorted(want_run)), prop="C12", data=data)
     c.check(veq(out, tuple(ref[l] for l in labels)), "returned values differ: real values for executed / computed nodes, None otherwise",
-            prop="C12", data={**data, "got": repr(out)})
+            prop="C12", data={**data, "got": out})
     c.cover("states", hash((tuple(tuple(deps[l]) for l in labels), repr(chosen), form, tuple(const_arg.values()))))
     if expected and expected != set(labels):
         c.cover("w_proper_subgraph")
@@ -281,6 +284,7 @@ def run_c12(cfg: GCfg, c: Ctx) -> Any:
 
 
 # ------------------------------------------------------------------------------------------------ C13
+@watchdog(lambda cfg: "C13")
 def run_c13(cfg: GCfg, c: Ctx) -> Any:
     from tawazi import Resource, cfg as twz_cfg, dag, xn
     from tawazi.errors import TawaziBaseException
@@ -399,7 +403,7 @@ def run_c13(cfg: GCfg, c: Ctx) -> Any:
         got_nd = tuple(v for l, v in zip(labels, out) if l not in dbg)
         want_nd = tuple(ref[l] for l in labels if l not in dbg)
         c.check(veq(got_nd, want_nd), "values of non-debug nodes depend on the debug setting / differ from the reference", prop="C13",
-                data={**data, "got": repr(got_nd)})
+                data={**data, "got": got_nd})
     c.cover("states", hash((tuple(tuple(deps[l]) for l in labels), tuple(sorted(dbg)), run_dbg, repr(mode))))
     if dbg and mode not in ("call", "setup"):
         c.cover("w_debug_with_selection")
